@@ -4,4 +4,5 @@ pkg=$1; shift; h=$1; shift
 d=/verif/tmp/dev_$pkg; rm -rf $d; mkdir -p $d
 sed "s/^package PKG/package $pkg/" /verif/harness/common/zz_vf_lib.go > $d/zz_vf_lib.go
 cp /verif/harness/$pkg/*.go $d/
+for g in $GEN; do python3 /verif/checks/$g ${VERIF_REPO:-/repo}/astool $d ${VERIF_REPO:-/repo}; done
 cd /verif/engine && GOFLAGS=-mod=mod GOPROXY=off GOSUMDB=off GOTOOLCHAIN=local go build -o symgo ./cmd/symgo && ./symgo run -repo ${VERIF_REPO:-/repo} -pkg ./$pkg -overlay $d -harness $h -out $d/res.json "$@"
